@@ -352,6 +352,76 @@ def rule_r23(ctx, prog, roots, rule="R23"):
 ORDER_SENSITIVE_APPEND = {"push", "push_back", "push_front", "extend", "extend_from_slice", "insert", "append", "push_str", "write", "send"}
 
 
+def _position_counter_leak(b):
+    """closure body b: is there a value X (accumulator component or captured variable) that is replaced by X + c on every
+    path and whose old value also flows into something else that is returned or stored?  → description of X, else None"""
+    from .facts import walk, fmt
+    exits = b.exits()
+    if not exits:
+        return None
+    pd = b.postdominators() if hasattr(b, "postdominators") else None
+    cands = []
+    for bb in b.live_blocks():
+        for si, s_ in enumerate(b.blocks[bb]["stmts"]):
+            if s_["k"] != "assign":
+                continue
+            rv = s_["rv"]
+            if rv["k"] == "binop" and rv["op"] in ("Add", "AddWithOverflow"):
+                a_, c_ = strip(b.operand_expr(rv["a"], bb, si)), strip(b.operand_expr(rv["b"], bb, si))
+                for x, k in ((a_, c_), (c_, a_)):
+                    if isinstance(k, tuple) and k[0] == "const" and isinstance(k[2], int) and k[2] >= 1 and isinstance(x, tuple):
+                        root = x
+                        while isinstance(root, tuple) and root[0] in ("field", "deref", "downcast"):
+                            root = strip(root[1])
+                        if isinstance(root, tuple) and root[0] in ("param", "upvar") and (root[0] == "upvar" or root[1] >= 2):
+                            # unconditional: the block is on every path to the return
+                            uncond = isinstance(pd, dict) and (bb == 0 or bb in pd.get(0, set()))
+                            cands.append((x, bb, uncond))
+    if not cands:
+        return None
+    outs = [strip(b.def_expr(0, d)) for d in b.reaching_defs(0, exits[0], "term")]
+    for (sbb, si, d) in b.stores():
+        outs.append(strip(b.rvalue_expr(b.blocks[sbb]["stmts"][si]["rv"], sbb, si)))
+    for x, bb, uncond in cands:
+        if not uncond:
+            continue
+
+        seen_phi = set()
+
+        def occurrences_outside_add(e, depth=0):
+            e = strip(e)
+            if not isinstance(e, tuple) or depth > 40:
+                return 0
+            if e == x:
+                return 1
+            if e[0] == "phi":
+                if (e[1], e[3]) in seen_phi:
+                    return 0
+                seen_phi.add((e[1], e[3]))
+                n_ = 0
+                for d_ in e[3]:
+                    try:
+                        n_ += occurrences_outside_add(b.def_expr(e[1], d_), depth + 1)
+                    except Exception:
+                        pass
+                return n_
+            if e[0] == "binop" and e[1] in ("Add", "AddWithOverflow") and (strip(e[2]) == x or strip(e[3]) == x):
+                return 0
+            n = 0
+            for y in e[1:]:
+                if isinstance(y, tuple):
+                    if y and isinstance(y[0], str):
+                        n += occurrences_outside_add(y, depth + 1)
+                    else:
+                        for z in y:
+                            if isinstance(z, tuple):
+                                n += occurrences_outside_add(z, depth + 1)
+            return n
+        if any(occurrences_outside_add(o) for o in outs):
+            return fmt(x)
+    return None
+
+
 def rule_r23_collect(ctx, prog, roots, rule="R23"):
     """results must not be *collected in visiting order* by a traversal whose order follows the memory layout: inside a closure
     driven by ndarray's `for_each`/`fold`/`Zip::for_each`… no captured collection may be appended to (the position an
@@ -385,6 +455,11 @@ def rule_r23_collect(ctx, prog, roots, rule="R23"):
                 pb, pe = up(prog, b, b.call_arg_exprs(bb)[0])
                 if pb is not b:                       # the receiver is captured from outside the closure
                     bad.append((nm, b.where(bb, "term")))
+            # (b) no position counter: a value incremented by a constant on every visit whose *intermediate* value is kept
+            # (stored with the running best, used as an index, …) is the element's position in visiting order
+            pos_bad = _position_counter_leak(b)
+            if pos_bad:
+                bad.append(("position counter `%s`" % pos_bad, b.where()))
             ctx.ob(rule, "%s/no-collection-in-visiting-order" % short(b.key), not bad, b.where(),
                    "the closure driven by ndarray `%s` appends to no captured collection" % via if not bad else
                    "a closure driven by ndarray `%s` (visiting order follows the memory layout) appends to a captured collection (%s): "
